@@ -28,16 +28,16 @@ CHECKS = {
    text="Every public operation incl. all descriptors under every generated config and history; sustained multi-threaded writers that reach the memtable-full wait, L0 slowdown and L0 stop; close while background work is pending. A call is non-returning only if neither the filesystem nor any hook point moved for 20 s; any panic on a raindb-* thread of an open database is a violation.",
    note="A livelock that keeps issuing filesystem calls would be reported as inconclusive (exit 2), not as a violation. Liveness is attacked as absence of quiescent non-returning calls."),
  "C10": dict(cat="exploration", ref="2 (C10)", technique="invariant checking over generated histories (structural well-formedness + descriptor/file cross-check)",
-   text="At every quiescent moment of generated histories (after flush/compaction/wait, after every reopen) the SSTables/NumFilesAtLevel descriptors are cross-checked with the structural layout, levels>=1 must be ordered and disjoint, smallest<=largest, no duplicate file numbers, and the recorded bounds must equal the first/last entry stored in each table file.",
+   text="At every quiescent moment of generated histories (after flush/compaction/wait, after every reopen) the SSTables/NumFilesAtLevel descriptors are cross-checked with the structural layout, levels>=1 must be ordered and disjoint, smallest<=largest, no duplicate file numbers, and the recorded bounds must equal the first/last entry stored in each table file; live snapshots make compactions retain older versions at the end of their outputs.",
    note="Trusted: verif_layout hook returns the current version's metadata verbatim; MemFs."),
  "C11": dict(cat="exploration", ref="2 (C11)", technique="invariant checking over generated histories (directory listing == needed files after quiescence; no read fails on a missing file)",
    text="Histories with iterators/snapshots pinning versions across compactions; reads must never fail on a missing file; after releasing everything, one flush (the reclamation opportunity) and quiescence the directory must hold exactly CURRENT, the current manifest, the active WAL and the current version's tables.",
    note="The lazy window before the next flush/compaction/open is by design (LevelDB heritage) and not flagged. Crash-image orphans are checked by the C02 engine."),
  "C02": dict(cat="fault_enumeration", ref="3 (C02)", technique="crash-point enumeration over journalled generated workloads (every journal prefix recovered and compared with the acknowledged/in-flight states)",
-   text="Each proptest-generated write workload runs on a journalling MemFs; every prefix of its totally ordered mutating filesystem calls is rebuilt as a crash image, recovered with varied reuse_log_files/config, compared with the acknowledged state (+ optionally the whole in-flight batch), then written to, closed, reopened and compared again; a sample of recoveries is itself crashed (depth 2). Enumeration of all crash points of a workload is complete (quick: for journals <= 400 entries); the workloads are a generated sample.",
+   text="Each proptest-generated write workload runs on a journalling MemFs; every prefix of its totally ordered mutating filesystem calls is rebuilt as a crash image, recovered with varied reuse_log_files/config, compared with the acknowledged state (+ optionally the whole in-flight batch), then written to, closed, reopened and compared again; a sample of recoveries is itself crashed (depth 2). A second campaign records workloads of 2-3 concurrent writers over disjoint key groups (writers held around the WAL append so that group commits form, synchronous and plain writes mixed): there the acceptable states are every thread's acknowledged prefix plus all-or-nothing of each thread's in-flight batch. Enumeration of all crash points of a workload is complete (quick: for journals <= 400 entries); the workloads are a generated sample.",
    note="Crash model: every completed filesystem call is durable, nothing else is (process crash, no page-cache loss); torn calls are C16."),
  "C08": dict(cat="fault_enumeration", ref="3 (C08)", technique="single-fault enumeration over the filesystem call stream of generated workloads (transient and sticky), oracle = acknowledged-writes model with all-or-nothing maybe-set",
-   text="Every filesystem call of a generated workload (after the initial open) is failed once (transient) and persistently (sticky); during the run each read must return an allowed value or an error, writes that returned Ok are in the model, failed writes form an all-or-nothing maybe-set, no call may hang; after disarming, close/reopen must succeed and the contents must equal the acknowledged writes plus all-or-nothing of the failed ones. Quick enumerates all positions for runs <= 600 calls.",
+   text="Every filesystem call of a generated workload (after the initial open) is failed once (transient) and persistently (sticky); during the run each read must return an allowed value or an error, writes that returned Ok are in the model, failed writes form an all-or-nothing maybe-set, no call may hang; scans that open the tables themselves (cold table cache after a reopen) and seek walks that retry a failed seek on the same iterator must stand on an allowed pair and must not skip an acknowledged key unless an error is reported; after disarming, close/reopen must succeed and the contents must equal the acknowledged writes plus all-or-nothing of the failed ones. Quick enumerates all positions for runs <= 600 calls.",
    note="Failures have no side effect on the file (partial writes are C16). Scans are judged through the iterator status channel (take_error): a scan that stops early with an error is an error report, one that stops early without is a violation."),
  "C12": dict(cat="exploration", ref="5 (C12)", technique="round-trip property testing of LogWriter/LogReader with an enumerated block-boundary family",
    text="Round-trip through the real LogWriter/LogReader over generated record-length lists, writer re-open points, writer death between fragments and final truncation at any byte, with an independent model of the block layout; the block-boundary arithmetic (offsets within 20 bytes of a boundary x lengths within 20 bytes of the remaining room) is enumerated completely in the thorough tier.",
@@ -46,13 +46,13 @@ CHECKS = {
    text="Generated sorted runs of internal entries over the special-shape key pool and block sizes from 1 byte to 1 MiB are written by the real TableBuilder and read back by the real Table/TwoLevelIterator: block contents, forward/backward iteration, seek to every entry/between/before/after, get(user key, bound) -> value/deleted/not-in-file, and random cursor walks are compared with the entry list.",
    note="Reached through wrappers in src/verif.rs. Values up to ~6 kB; larger multi-block values are exercised through the database-level checks."),
  "C14": dict(cat="exploration", ref="5 (C14)", technique="property testing of filter membership (public policy API; table filter blocks with Bloom and an exact-set policy)",
-   text="Policy level: every member of generated key sets (0-3000 keys, bits_per_key 1-64) and of an exhaustive length x bits family must answer may-match. Table level: for every data block offset and every user key in that block the table's filter block must answer may-match, with the Bloom policy and with an exact-set policy that turns builder/reader range disagreements into deterministic false negatives.",
+   text="Policy level: every member of generated key sets (0-3000 keys, bits_per_key 1-64) and of an exhaustive length x bits family must answer may-match. Table level: for every data block offset and every user key in that block the table's filter block must answer may-match, with the Bloom policy and with an exact-set policy that turns builder/reader range disagreements into deterministic false negatives. Layout level: synthetic block layouts (blocks sharing a 2 KiB filter range, blocks spanning many ranges, offsets around 2 GiB and beyond 4 GiB) are fed straight to the filter block builder and reader through a guarded wrapper.",
    note="False positives are allowed by the property and not measured."),
  "C15": dict(cat="fault_enumeration", ref="3 (C15)", technique="corruption enumeration (bit flips / byte replacement at enumerated offsets of every persistent file, table truncations) against a written-values oracle",
-   text="Small multi-level images (tiny blocks, compressible and raw blocks, multi-record manifest, live WAL with multi-key batches) are built by generated workloads; every persistent file is damaged at enumerated offsets (quick: 2 mutations per offset of CURRENT/manifest/WAL/table tails, every 3rd offset elsewhere; thorough: 11 mutations at every offset and every table truncation) and the copy is opened with a fresh cache: open fails, or every get/scan returns what was written or an error; WAL damage may skip records atomically. Invented values are always violations.",
-   note="One open known finding excludes (and counts) stale/missing results: unchecksummed manifest fragment header bytes (signature: the damaged offset is byte 4-6 of a manifest fragment header). Panics on damaged input are counted as detected-ungraceful, not as violations. Corruption is applied while the database is closed."),
+   text="Small multi-level images (tiny blocks, compressible and raw blocks, multi-record manifest, live WAL with multi-key batches, in a quarter of the images a WAL record of several log fragments) are built by generated workloads; every persistent file is damaged at enumerated offsets (the 3 unchecksummed header bytes of every WAL/manifest fragment always, with every type value and boundary lengths; quick: 2 mutations per offset of CURRENT/manifest/WAL/table tails, every 3rd offset elsewhere; thorough: 11 mutations at every offset and every table truncation) and the copy is opened with a fresh cache: open fails, or every get/scan returns what was written or an error; WAL damage may skip records atomically. Invented values are always violations.",
+   note="One open known finding excludes (and counts) stale/missing results: unchecksummed manifest fragment header bytes (signature: the damaged byte is the type byte of a manifest fragment header, or a length byte whose new value makes the fragment extend beyond the end of the file; any other header damage fails the payload checksum and must be detected). Panics on damaged input are counted as detected-ungraceful, not as violations. Corruption is applied while the database is closed."),
  "C16": dict(cat="fault_enumeration", ref="3 (C16)", technique="torn-write enumeration over journalled generated workloads (append cut at 1, n/2, n-1 bytes; recover, write, reopen)",
-   text="Every append to a WAL, manifest or CURRENT temp file of a generated workload is cut to 1, n/2, n-1 bytes (thorough: every length for n<=64 plus the header boundary); the image must recover to acknowledged(+in-flight) state with reuse_log_files on and off, accept 1-5 further writes (incl. a 40 kB one) and still contain them after a clean reopen with either setting.",
+   text="Every append to a WAL, manifest or CURRENT temp file of a generated workload is cut to 1, n/2, n-1 bytes (thorough: every length for n<=64 plus the header boundary); the image must recover to acknowledged(+in-flight) state with reuse_log_files on and off, accept 1-5 further writes (incl. a 40 kB one) and still contain them after a clean reopen with either setting. Workloads of 2-3 concurrent writers (group commits) are torn the same way.",
    note="Crash model as C02 plus one partially applied append."),
  "C17": dict(cat="exploration", ref="4 (C17)", technique="generated multi-threaded open/close/destroy programs released by barriers on real files (flock), judged by an owner ledger",
    text="2-6 threads run generated rounds of Open/Close/Destroy/Write on raindb's TmpFileSystem (real flock); all operations of a round start together. While a handle not being closed is alive every open and destroy must fail; without an owner at most one racing open succeeds (exactly one when no destroy/close races); owners re-read what they wrote and write a probe after every round; at the end the database opens with all acknowledged data (unless an unowned destroy ran), refuses destroy while open and is destroyed after close.",
